@@ -3,7 +3,7 @@
    Model/Jar.v (request objects at /authorize, /par, /bc-authorize) and Model/Authorize.v
    (pushed requests); the predicates jar_ok, ciba_jar_ok, out_ok are the executable ones of
    Model/JarSpec.v, which the monitor of Corr/C07.v evaluates on the implementation's answers. *)
-From Verif Require Import Base Scope Types Prog Pop Token Authorize System Config Jar JarSpec C07Proofs.
+From Verif Require Import Base Scope Types Prog Pop Token Authorize System Config Jar JarSpec C07Proofs C02Handlers C07Nav.
 Local Open Scope N_scope.
 
 (* ---- jar_authentic ----
@@ -145,6 +145,44 @@ Theorem jar_handlers_conservative_ciba : forall w jx n now r st,
   run_seq (init_back_auth_jar w jx n now r None) st = run_seq (init_back_auth w n now r) st.
 Proof. exact init_back_auth_jar_plain. Qed.
 Print Assumptions jar_handlers_conservative_ciba.
+
+(* ---- where a request that carries a request object may navigate (property C02 for the JAR-aware
+   authorization endpoint; monitor clause 8 and the "redirected error" half of clauses 1/2) ----
+   jar_navigation_validated: validateRequestWithJAR (after fetching / resolving the object) redirects an
+   error only with parameters whose redirect_uri is present and registered for the client, and the
+   parameters it settles on for the session have such a redirect_uri too - wherever the redirect_uri
+   came from (object or query), whatever else the object carries (nested request / request_uri, bad
+   scope, response_type ...). *)
+Theorem jar_navigation_validated : forall cfg jc c jcl outer jin,
+  (forall e p, jar_decision cfg jc c jcl outer jin = inl (ARedirect e p) ->
+     is_empty (p_redirect p) = false /\ redirect_allowed c (p_redirect p) = true) /\
+  (forall p, jar_decision cfg jc c jcl outer jin = inr p ->
+     is_empty (p_redirect p) = false /\ redirect_allowed c (p_redirect p) = true).
+Proof. exact jar_decision_valid. Qed.
+Print Assumptions jar_navigation_validated.
+
+(* an object that is not authentic for the client (not signed by a key of its JWKS with a permitted
+   algorithm ..., nor unsigned with 'none' allowed for the client - the JWE layer, if any, removed
+   first) is answered with a LOCAL error: nothing it carries reaches a navigation *)
+Theorem unauthentic_object_never_navigates : forall cfg jc c jcl outer jin o,
+  c_id c <> 0 -> carries jin o -> jar_ok (cf_profile cfg) jc (c_id c) jcl o = false ->
+  exists x, jar_decision cfg jc c jcl outer jin = inl (ALocal x).
+Proof. exact jar_decision_unauthentic_local. Qed.
+Print Assumptions unauthentic_object_never_navigates.
+
+(* handler level, every world, store, clock and request (plain, with an object by value or by reference,
+   or redeeming a pushed request): every navigation - code, tokens, policy failure, validation error -
+   targets a URI registered for the requesting client, or the redirect_uri of the pushed session this
+   very request redeems (same statement as C02's nav_target_authorize, for the JAR-aware handler) *)
+Theorem nav_target_authorize_jar : forall w jx n now q st u,
+  nav_target (snd (run_seq (init_auth_jar w jx n now q) st)) = Some u ->
+  exists c, snd (run_seq (get_client w (ar_client (jq_req q))) st) = Some c /\
+    (redirect_allowed c u = true \/
+     exists s, find (fun s => ideq (a_par s) (p_request_uri (ar_params (jq_req q)))) (st_asess st) = Some s /\
+               a_client s = ar_client (jq_req q) /\ u = p_redirect (a_params s) /\
+               (is_fapi (cf_profile (w_cfg w)) = true \/ cf_par_unregistered (w_cfg w) = true)).
+Proof. exact init_auth_jar_target. Qed.
+Print Assumptions nav_target_authorize_jar.
 
 (* ---- SLOT (main developer): request_uri_bound / request_uri_one_shot -------------------------
    Theorems over all histories of Model/Authorize.v (push_auth, init_auth):
